@@ -45,6 +45,9 @@ func c16Type(r *core.Run) *simType {
 	t := r.T
 	if t.Chance(1, 4) {
 		z := zooFor(gen.Proto)
+		if t.Chance(1, 3) {
+			z = zooProtoScalars
+		}
 		return z[t.Intn(len(z))]
 	}
 	shape := t.Intn(gen.ShapeSpace)
@@ -114,7 +117,7 @@ type c16Scenario struct {
 
 func protoTypeOfScenario(name string, shape int, sparse, noMaps bool) *simType {
 	if name != "" {
-		for _, z := range zooFor(gen.Proto) {
+		for _, z := range append(append([]*simType(nil), zooFor(gen.Proto)...), zooProtoScalars...) {
 			if z.name == name {
 				return z
 			}
